@@ -455,4 +455,133 @@ example : ∃ s, run {} true (init {}) [.sched [], .run 0 ["a"], .sched ["a"], .
     ∃ s', run {} true s [.gc, .sched []] = some s' ∧ s'.live.map (·.dn) = [[]] ∧ s'.tree.map (fun n => (n.dn, n.state, n.cancelled)) = [([], .new, false)] := by
   decide
 
+/-! ## the supervisor option `WithPropagatePanic` (the configuration `guardiand` runs)
+
+`stepO pp` / `runO pp` (Model/Supervisor.lean) is the system whose supervisor was built with `propagatePanic = pp`:
+the option is consulted in one place only, by the goroutine `processSchedule` starts, and only when a panic unwinds
+the runnable.  The statement of C18 speaks of a service that "returns or panics (with panic capture on)": with the
+option on a panic ends the process (`Outcome.crashed`, an explicit result) and is outside the statement; everything
+the statement says about services that RETURN holds in that configuration too, because for those the two systems
+are the same system. -/
+
+/-- **A return is reported whatever the option says.**  When the runnable of a running instance returns `e` (`nil`,
+a context error, any other error) the goroutine started by `processSchedule` sends `died{dn, e}` to the processor,
+with `propagatePanic` on exactly as with it off: the instance is gone and the request is pending. -/
+theorem c18_propagate_panic_return_reported (pp : Bool) (P : Params) (fixed : Bool) {s : Sys} {iid : Nat} {i : Inst}
+    (hi : s.live.find? (fun j => j.iid = iid) = some i) (e : ErrKind) :
+    stepO pp P fixed s (.act (.ret iid e)) = .next { s with live := s.live.erase i, pend := s.pend ++ [.died i.dn e] } ∧
+    reportOf pp (.returned e) = .died e := by
+  constructor
+  · simp only [stepO, hi, endInst, reportOf]
+  · rfl
+
+/-- `root` runs under `propagatePanic`, has started `a`; `a` returns an error: the `died` request is pending and the
+processor's `processDied` marks `a` DEAD - with the option on and off alike -/
+example : ∀ pp, ∃ s, runO pp {} true (init {}) [.act (.sched []), .act (.run 0 ["a"]), .act (.sched ["a"]), .act (.sig 1 .healthy),
+      .act (.ret 1 .other)] = .next s ∧ s.pend = [.died ["a"] .other] ∧ s.live.map (·.dn) = [[]] ∧
+    ∃ s', stepO pp {} true s (.act (.died ["a"] .other)) = .next s' ∧ s'.tree.map (fun n => (n.dn, n.state)) = [([], .new), (["a"], .dead)] := by
+  decide
+
+/-- **The option only matters for panics.**  (1) With the option off the configured system is the base system `step`
+(a panic being the death `other`).  (2) With the option on the process ends exactly when an action makes a runnable
+panic — its own code, or the `Signal` / `RunGroup` call it makes.  (3) An action that makes no runnable panic has the
+same outcome under both settings, and (4) so has every sequence of such actions: for services that return — whatever
+they return, whenever, in whatever order, with the processor's steps interleaved in any way — the runs of the system
+with `WithPropagatePanic` are exactly the runs of `step`. -/
+theorem c18_propagate_panic_returning_same (P : Params) (fixed : Bool) (s : Sys) :
+    (∀ a, stepO false P fixed s a = Outcome.ofOption (step P fixed s a.toAct)) ∧
+    (∀ a, stepO true P fixed s a = .crashed ↔ raises P s a = true) ∧
+    (∀ pp a, raises P s a = false → stepO pp P fixed s a = Outcome.ofOption (step P fixed s a.toAct)) ∧
+    (∀ pp acts, panicFree P fixed s acts = true →
+      runO pp P fixed s acts = Outcome.ofOption (run P fixed s (acts.map OAct.toAct))) := by
+  refine ⟨stepO_false P fixed s, stepO_true_crashed_iff P fixed s, fun pp a h => ?_, fun pp acts h => ?_⟩
+  · rw [stepO_of_not_raises pp P fixed s a h, stepO_false]
+  · rw [runO_panicFree pp P fixed acts s h, runO_false]
+
+/-- `exRun` (a failing root, a Done child returning late, the restart) contains no panic: it is a run under either
+setting, ending in the same state; one panic in it, and the process ends under `WithPropagatePanic` while the panic
+is a death like any other without it -/
+example : panicFree {} true (init {}) (exRun.map .act) = true ∧
+    (∀ pp, runO pp {} true (init {}) (exRun.map .act) = Outcome.ofOption (run {} true (init {}) exRun)) ∧
+    runO true {} true (init {}) ((exRun.take 5).map .act ++ [.panic 0]) = .crashed ∧
+    (∃ s, runO false {} true (init {}) ((exRun.take 5).map .act ++ [.panic 0]) = .next s ∧ s.pend = [.died [] .other]) ∧
+    runO true {} true (init {}) [.act (.sched []), .act (.sig 0 .done)] = .crashed := by
+  decide
+
+/-- **Everything proved about reachable states carries over to `guardiand`'s configuration.**  A state the system
+with `WithPropagatePanic` (or without) reaches while the process is alive is a reachable state of `step`; so on the
+repaired code no service has two running instances (`c18_mutex`) and every pending request and every running
+goroutine refers to a node that exists and is its own (`c18_requests_find_node`: the processor never panics). -/
+theorem c18_propagate_panic_reach (pp : Bool) (P : Params) {acts : List OAct} {s : Sys}
+    (h : runO pp P true (init P) acts = .next s) :
+    Reach P true (fun _ => True) s ∧ Mutex s ∧
+    (∀ r ∈ s.pend, ∃ n ∈ s.tree, n.dn = r.dn ∧ n.exited = false) ∧
+    (∀ i ∈ s.live, ∃ n ∈ s.tree, n.dn = i.dn ∧ n.exited = false) := by
+  have hr : Reach P true (fun _ => True) s := Reach.of_run _ Reach.init (runO_next acts h)
+  exact ⟨hr, c18_mutex P hr, c18_requests_find_node P hr⟩
+
+example : ∃ s, runO true {} true (init {}) (exRun.map .act) = .next s ∧ liveCount s ["c"] = 1 ∧ liveCount s [] = 1 := by
+  decide
+
+/-- **A service that returns is restarted under `WithPropagatePanic` as well.**  A running service returns `e` and
+that is a failure (it had not signalled Done and returned nil; it is not answering a cancellation of its own
+context with the context error).  Under either setting of the option: the return is reported, `processDied` makes
+the node `DEAD` and cancels it, everything below it and the members of its group (`c18_died_cancels_group` speaks
+about this very `t'`), and once everything below has stopped (`ready`) and the parent context is live, the next GC
+pass puts the schedule request of the service (or of an ancestor that died too) in flight and `processSchedule`
+starts it again. -/
+theorem c18_propagate_panic_returning_restarted (pp : Bool) (P : Params) (fixed : Bool) {s : Sys} (hk : s.killed = false)
+    {iid : Nat} {i : Inst} {n : Node} {e : ErrKind} (hi : s.live.find? (fun j => j.iid = iid) = some i)
+    (hf : find s.tree i.dn = some n) (h1 : ¬(n.state = .done ∧ e = .nil)) (h2 : ¬(n.cancelled = true ∧ e = .ctx))
+    {t' : Tree} (hd : processDied s.tree i.dn e = .ok t')
+    (hpar : parentLive t' i.dn = true) (hsub : ready fixed t' i.dn = true) :
+    ∃ s₃, runO pp P fixed s [.act (.ret iid e), .act (.died i.dn e)] = .next s₃ ∧ s₃.tree = t' ∧
+      (∀ m ∈ t', under i.dn m.dn = true → m.cancelled = true) ∧
+      ∃ s₄ r, stepO pp P fixed s₃ (.act .gc) = .next s₄ ∧ under r i.dn = true ∧ Req.sched r ∈ s₄.pend ∧
+        ∃ s₅, stepO pp P fixed s₄ (.act (.sched r)) = .next s₅ ∧ ∃ j ∈ s₅.live, j.dn = r := by
+  let s₂ : Sys := { s with live := s.live.erase i, pend := s.pend ++ [.died i.dn e] }
+  have hret : step P fixed s (.ret iid e) = some s₂ := by simp [step, hi, s₂]
+  let s₃ : Sys := { s₂ with pend := s₂.pend.erase (.died i.dn e), tree := t' }
+  have hdied : step P fixed s₂ (.died i.dn e) = some s₃ := by
+    have hm : Req.died i.dn e ∈ s₂.pend := List.mem_append.2 (Or.inr (List.mem_singleton.2 rfl))
+    have hk2 : s₂.killed = false := hk
+    have hd2 : processDied s₂.tree i.dn e = .ok t' := hd
+    simp [step, hk2, hm, hd2, s₃]
+  have hcanc := (c18_died_cancels_group hf h1 h2 hd).2.1
+  obtain ⟨g, rfl, hkeep, hst, _, _, _⟩ := processDied_dead hf h1 h2 hd
+  have hn := (find_some hf)
+  have hmem : g n ∈ s₃.tree := List.mem_map.2 ⟨n, hn.1, rfl⟩
+  have hdn : (g n).dn = i.dn := by rw [(hkeep n).1]; exact hn.2
+  have hk3 : s₃.killed = false := hk
+  obtain ⟨s₄, r, h4, hu, hp, s₅, h5, hj⟩ := c18_restart_sys P fixed hk3 hmem (Or.inl (hst n hn.2).1) (by rw [hdn]; exact hpar) (by rw [hdn]; exact hsub)
+  have same := fun (x : Sys) => (c18_propagate_panic_returning_same P fixed x).2.2.1 pp
+  refine ⟨s₃, ?_, rfl, hcanc, s₄, r, ?_, by rw [← hdn]; exact hu, hp, s₅, ?_, hj⟩
+  · simp only [runO]
+    rw [same s _ rfl]
+    simp only [OAct.toAct, hret, Outcome.ofOption]
+    rw [same s₂ _ rfl]
+    simp only [OAct.toAct, hdied, Outcome.ofOption]
+  · rw [same s₃ _ rfl]; simp only [OAct.toAct, h4, Outcome.ofOption]
+  · rw [same s₄ _ rfl]; simp only [OAct.toAct, h5, Outcome.ofOption]
+
+/-- under `WithPropagatePanic`: `root` starts the group `{a, b}`, all three signal Healthy -/
+def ppGroupRun : List OAct :=
+  [.act (.sched []), .act (.run 0 ["a", "b"]), .act (.sig 0 .healthy), .act (.sched ["a"]), .act (.sched ["b"]), .act (.sig 2 .healthy)]
+
+/-- `a` returns nil without having signalled Done (a failure): the hypotheses of the theorem hold; `a` is DEAD, `b` -
+still running - holds a cancelled context -/
+example : ∃ s, runO true {} true (init {}) ppGroupRun = .next s ∧ s.killed = false ∧ s.live.find? (fun j => j.iid = 1) = some ⟨1, ["a"], 1⟩ ∧
+    ∃ s₃, runO true {} true s [.act (.ret 1 .nil), .act (.died ["a"] .nil)] = .next s₃ ∧
+      s₃.tree.map (fun n => (n.dn, n.state, n.cancelled)) = [([], .healthy, false), (["a"], .dead, true), (["b"], .healthy, true)] ∧
+      s₃.live.map (fun j => (j.dn, instCancelled s₃.tree j)) = [([], false), (["b"], true)] ∧
+      parentLive s₃.tree ["a"] = true ∧ ready true s₃.tree ["a"] = true := by
+  decide
+
+/-- `b` answers the cancellation with the context error; the GC then restarts both (`a` after its back-off, `b` at once) -/
+example : ∃ s₅, runO true {} true (init {}) (ppGroupRun ++ [.act (.ret 1 .nil), .act (.died ["a"] .nil), .act (.ret 2 .ctx),
+      .act (.died ["b"] .ctx), .act .gc, .act (.sched ["a"]), .act (.sched ["b"])]) = .next s₅ ∧
+    s₅.live.map (·.dn) = [[], ["a"], ["b"]] ∧
+    s₅.tree.map (fun n => (n.dn, n.state, n.cancelled)) = [([], .healthy, false), (["a"], .new, false), (["b"], .new, false)] := by
+  decide
+
 end Whv.C18
